@@ -183,6 +183,18 @@ def gen_scenario_new(rng, ctype, fp):
         sc = calgen.Scenario(ctype, r, c, F, rng)
         sc.freqs = gen_freqs(rng, F, fp)
         sc.z0 = rand_z0(rng)
+        if rng.random() < 0.12:
+            # an instrument with (numerically) no crosstalk or directivity
+            # error at all: the leakage terms come out as subnormal numbers,
+            # which have a decimal representation like any other value
+            tiny = 10.0 ** rng.uniform(-312, -308)
+            for en in sc.enet:
+                if ctype in physics.COLUMN_TYPES:
+                    en.cols = [(el * tiny, er, em, et)
+                               for (el, er, em, et) in en.cols]
+                else:
+                    en.El = en.El * tiny
+            sc.tiny_leakage = True
         sc.sufficient_recipe(extras=int(rng.integers(0, 2)))
         sc.choose_entries()
         ok, kappa = sc.well_determined(KAPPA_MAX)
